@@ -117,6 +117,23 @@ Router::~Router()
         conn = connRefs.begin();
     }
 
+    // Delete connectors whose endpoints are still queued to be set: they
+    // have not become active, so they are not in connRefs, but the router
+    // owns them.
+    std::vector<ConnRef *> queuedConns;
+    for (ActionInfoList::iterator curr = actionList.begin();
+            curr != actionList.end(); ++curr)
+    {
+        if ((curr->type == ConnChange) && !curr->conn()->m_active)
+        {
+            queuedConns.push_back(curr->conn());
+        }
+    }
+    for (size_t i = 0; i < queuedConns.size(); ++i)
+    {
+        delete queuedConns[i];
+    }
+
     // Remove remaining obstacles (shapes and junctions).
     ObstacleList::iterator obstacle =  m_obstacles.begin();
     while (obstacle != m_obstacles.end())
